@@ -602,9 +602,9 @@ func init() {
 		Level: "exploration",
 		Rule: "All combinations up to D deviations from a plain configuration: target protocols (6 settings incl. none, an invalid value, REST-only), codecs (5 incl. none, unknown, the extra codec), compressions (4 incl. unknown), each given as transcoder-wide default and/or per service (conflicting); one service, two services (the second with options of its own), the same service twice (same descriptor, or two equal descriptor instances), an unresolvable service; " +
 			"0-2 WithRules rules with selector (12: exact names incl. one that is a prefix of another method, '.*' forms, '*', misplaced wildcards, empty, no match), pattern (20: 5 valid incl. the custom kind '*' beside GET on one template, 15 invalid), body/response_body (9 incl. unknown and dotted), additional bindings (valid, nested, duplicate). " +
-			"Oracle: an independent predicate built from the property's rejection classes; accepted configurations are probed (every binding reachable through the URL built from its template and reaching exactly the named method; effective per-service-over-default options). Non-trivial = configurations with exactly one rejection reason, and accepted ones.",
+			"Oracle: an independent predicate built from the property's rejection classes; accepted configurations are probed (every binding reachable through the URL built from its template and reaching exactly the named method; effective per-service-over-default options). Non-trivial = configurations with exactly one rejection reason, and accepted ones. Before that, serially: two Transcoders of one process built in both orders, one of which registers a compression / codec / gzip override of its own - the other must reject a service naming it, and must keep its own gzip.",
 		Assume:      []string{"limits of 0 and other settings the property does not list are not varied"},
-		Scenarios:   []Scenario{{Name: "configurations", Fn: scn, QuickBound: 3, ThoroughBound: 4}},
+		Scenarios:   []Scenario{{Name: "instances", Fn: c17InstancesScenario, QuickBound: 2, ThoroughBound: 2, Serial: true, StopIfViolated: true}, {Name: "configurations", Fn: scn, QuickBound: 3, ThoroughBound: 4}},
 		MinOutcomes: 2,
 	})
 }
